@@ -203,6 +203,8 @@ def show(t):
         return "Result<%s,%s>" % (show(t["ts"][0]), show(t["ts"][1]))
     if k == "box":
         return "%s<%s>" % (t["s"], show(t["ts"][0]))
+    if k == "tup" and t["s"] == "Range":
+        return "Range<%s>" % show(t["ts"][0])
     if k == "tup":
         return "(" + ",".join(show(x) for x in t["ts"]) + ")"
     if k == "map":
